@@ -4,6 +4,7 @@ import (
 	"encoding/json"
 	"fmt"
 	"os"
+	"runtime/pprof"
 	"strconv"
 	"strings"
 )
@@ -78,6 +79,11 @@ func main() {
 				job.Params[kv[0]] = v
 			}
 		}
+		if pf := os.Getenv("CPUPROFILE"); pf != "" {
+			f, _ := os.Create(pf)
+			pprof.StartCPUProfile(f)
+			defer pprof.StopCPUProfile()
+		}
 		ld, err := loadModule(job.Module)
 		if err != nil {
 			fmt.Fprintln(os.Stderr, err)
@@ -88,6 +94,7 @@ func main() {
 		res.Funcs = nil
 		b, _ := json.MarshalIndent(res, "", " ")
 		fmt.Println(string(b))
+		pprof.StopCPUProfile()
 		fmt.Printf("funcs=%d paths=%d forks=%d queries=%d solver=%.2fs wall=%.2fs unknown=%d violations=%d complete=%v\n", len(funcs), res.Paths, res.Forks, res.Queries, res.SolverTimeS, res.WallS, res.Unknown, len(res.Violations), res.Complete)
 	default:
 		usage()
